@@ -60,6 +60,7 @@ fn gate() {
     }
     let sc = roots::load_scenarios();
     roots::validate_scenarios_against_reference(&sc);
+    roots::validate_fixed_fens();
 }
 
 pub fn dispatch(cmd: &str, args: &Args) -> i32 {
